@@ -74,6 +74,7 @@ def scenario(big: bool = False) -> Any:
         "mws": st.lists(mw, max_size=2),
         "probe_gap": st.sampled_from([0.0, 0.0, 0.05]),
         "via_api": st.sampled_from([False, False, False, True]),
+        "eager_tasks": st.sampled_from([False, False, False, True]),
     }).map(fin)
 
 
@@ -150,7 +151,7 @@ def run_case(sc: Dict[str, Any]) -> Outcome:
     arrivals = {round(sp["at"], 6) for sp in specs[:nh]}
     coincide = bool(ends & arrivals) and nh > 1
     out.nontrivial = bool(nonsucc + (1 if hookfail else 0) + (1 if savefail else 0) >= A or coincide)
-    out.classes = [f"A={A}"] + (["run_receiver_task_resubscribes"] if sc.get("via_api") else []) + [c for c, f in (("hook_failure", hookfail), ("save_failure", savefail),
+    out.classes = [f"A={A}"] + (["run_receiver_task_resubscribes"] if sc.get("via_api") else []) + (["eager_task_factory"] if sc.get("eager_tasks") else []) + [c for c, f in (("hook_failure", hookfail), ("save_failure", savefail),
                                               ("coincident_completion_arrival", coincide), ("nonsuccess>=A", nonsucc >= A)) if f]
     return out
 
